@@ -628,11 +628,15 @@ stepLoop:
 	m.Stop()
 	_ = b.Close()
 	// let all receiver goroutines end (channels are closed by the muxer's shutdown)
+	teardown := patience + 60*time.Second
+	if aborted {
+		teardown = 3 * time.Second // a verdict exists already; do not let shrinking crawl
+	}
 	for e := range regs {
 		for _, lr := range regs[e] {
 			select {
 			case <-lr.done:
-			case <-time.After(patience + 60*time.Second):
+			case <-time.After(teardown):
 				return
 			}
 		}
